@@ -204,7 +204,12 @@ func c13Gen(t *tape.Tape, ownProp func(string) bool) (prelude, recv string, step
 	}
 	recv = fmt.Sprint(1 + t.Intn(9))
 	for i := 0; i < k; i++ {
-		switch t.Pick(4, 3, 1, 1, 1, 1, 1) {
+		switch t.Pick(4, 3, 1, 1, 1, 1, 1, 1) {
+		case 7:
+			// a step that succeeds with a nil / falsy value
+			sl := next()
+			v := []string{"nil", "0", "false", "\"\"", "[]"}[t.Intn(5)]
+			steps = append(steps, c13Step{"lit-falsy", fmt.Sprintf(".{|x| S(%d); %s}", sl, v), sl})
 		case 0:
 			sl := next()
 			steps = append(steps, c13Step{"lit", fmt.Sprintf(".{|x| S(%d); (x + %d)}", sl, t.Intn(5)), sl})
@@ -287,6 +292,7 @@ func (c *c13Check) Run(seed, run uint64, rec []uint32, st Stats, only *Viol) []V
 		fmt.Sprintf("rCatchAny := e.catch(Err){|x| S(%d); 4242}.A\n", handlerSlot) +
 		"rCatchT := e.catch(TypeErr){|x| 4243}.A\nrCatchV := e.catch(ValueErr){|x| 4244}.A\nrCatchZ := e.catch(ZeroDivisionErr){|x| 4245}.A\n" +
 		"rIgnT := e.ignore(TypeErr).A\nrIgnN := e.ignore(NoPropErr).A\n" +
+		"rIgnTQ := [e.ignore(TypeErr).err?, e.ignore(TypeErr).val?]\nrCatchNilQ := e.catch(ValueErr){|x| nil}.err?\n" +
 		"e.abandon\n"
 	s.Programs++
 	astA, errA := harness.Parse(progA)
@@ -453,6 +459,10 @@ func (c *c13Check) Run(seed, run uint64, rec []uint32, st Stats, only *Viol) []V
 				chk("or", insp(get("rOr")) == a.val, a.val, insp(get("rOr")))
 			}
 			chk("abandon", !b.raised && b.val == a.val, a.val, fmt.Sprintf("%+v", b))
+			if arr, ok := get("rIgnTQ").(*object.PanArr); ok && len(arr.Elems) == 2 {
+				chk("ignore.err?", arr.Elems[0] == object.BuiltInFalse, "false", insp(arr.Elems[0]))
+			}
+			chk("catch.err?", get("rCatchNilQ") == object.BuiltInFalse, "false", insp(get("rCatchNilQ")))
 			hs := 0
 			for _, x := range bTrace {
 				if x == handlerSlot {
@@ -485,6 +495,21 @@ func (c *c13Check) Run(seed, run uint64, rec []uint32, st Stats, only *Viol) []V
 			} else {
 				chk(nm, ok && isNil(v) && sameErr(e), want, insp(get(nm)))
 			}
+		}
+		if arr, ok := get("rIgnTQ").(*object.PanArr); ok && len(arr.Elems) == 2 {
+			// an ignored error leaves a value-less success: no error any more
+			wantErrQ := object.PanObject(object.BuiltInTrue)
+			if a.kind == "TypeErr" {
+				wantErrQ = object.BuiltInFalse
+			}
+			chk("ignore.err?", arr.Elems[0] == wantErrQ, insp(wantErrQ), insp(arr.Elems[0]))
+		}
+		{
+			wantErrQ := object.PanObject(object.BuiltInTrue)
+			if a.kind == "ValueErr" {
+				wantErrQ = object.BuiltInFalse
+			}
+			chk("catch.err?", get("rCatchNilQ") == wantErrQ, insp(wantErrQ), insp(get("rCatchNilQ")))
 		}
 		for nm, k := range map[string]string{"rIgnT": "TypeErr", "rIgnN": "NoPropErr"} {
 			v, e, ok := pair(get(nm))
